@@ -4,9 +4,65 @@
 
 static PyObject * specpart(PyObject *self, PyObject *args);
 
+/* ==== Verification hook, enabled only when WAVESPECTRA_VERIF=1 ===============
+ * A simulator may register a Python callable that is invoked at the yield points
+ * in specpart.c, but only when the calling thread does not hold the GIL (while the
+ * GIL is held no other Python thread can be inside partition, so yielding there
+ * would model an interleaving that cannot happen). Off by default: the function
+ * pointer in specpart.c stays NULL and the shipped behaviour is unchanged. */
+extern void (*specpart_verif_hook)(int);
+static PyObject *verif_callback = NULL;
+static long verif_sites_gil_held = 0, verif_sites_gil_free = 0;
+
+static void verif_trampoline(int site) {
+  PyGILState_STATE st;
+  PyObject *res;
+  if (PyGILState_Check()) {
+    verif_sites_gil_held++;
+    return;
+  }
+  st = PyGILState_Ensure();
+  verif_sites_gil_free++;
+  if (verif_callback) {
+    res = PyObject_CallFunction(verif_callback, "i", site);
+    if (res == NULL)
+      PyErr_Clear();
+    else
+      Py_DECREF(res);
+  }
+  PyGILState_Release(st);
+}
+
+static PyObject * verif_set_hook(PyObject *self, PyObject *args) {
+  PyObject *cb;
+  const char *guard = getenv("WAVESPECTRA_VERIF");
+  if (guard == NULL || strcmp(guard, "1") != 0) {
+    PyErr_SetString(PyExc_RuntimeError, "verification hooks need WAVESPECTRA_VERIF=1");
+    return NULL;
+  }
+  if (!PyArg_ParseTuple(args, "O", &cb))
+    return NULL;
+  Py_XDECREF(verif_callback);
+  if (cb == Py_None) {
+    verif_callback = NULL;
+    specpart_verif_hook = 0;
+  } else {
+    Py_INCREF(cb);
+    verif_callback = cb;
+    specpart_verif_hook = verif_trampoline;
+  }
+  Py_RETURN_NONE;
+}
+
+static PyObject * verif_stats(PyObject *self, PyObject *args) {
+  return Py_BuildValue("(ll)", verif_sites_gil_held, verif_sites_gil_free);
+}
+
 /* ==== Set up the methods table ====================== */
 static PyMethodDef specpart_methods[] = {
   {"partition", specpart, METH_VARARGS, "Description"},
+  {"_verif_set_hook", verif_set_hook, METH_VARARGS, "Register simulator yield callback (needs WAVESPECTRA_VERIF=1)"},
+  {"_verif_stats", verif_stats, METH_NOARGS, "(yield points visited with GIL held, with GIL released)"},
   {NULL, NULL, 0, NULL}
 };
 
